@@ -82,6 +82,7 @@ fn run_replay(job: &Value) {
         out.heartbeat(i);
         out.stats.items += 1;
         if bv["kind"].as_str() == Some("vocab") && job["only_evaluator"].as_str().map_or(false, |x| bv["e"].as_str() != Some(x)) { continue; }
+        if bv["kind"].as_str() == Some("vocab") { if let Some(only) = job["only_functions"].as_array() { if !only.iter().any(|f| f.as_str() == bv["item"]["fn"].as_str()) { continue; } } }
         if bv["kind"].as_str() == Some("vocab") { out.heartbeat(i); out.stats.items += 1; functions::replay_item(&mut out, &bv, &mut rng, job["samples_per_pair"].as_u64().unwrap_or(200) as usize); continue; }
         if bv["kind"].as_str() == Some("fclass") { out.heartbeat(i); out.stats.items += 1; fclass::replay(&mut out, &bv); continue; }
         if bv.get("chars").is_some() {
